@@ -78,7 +78,7 @@ def run(ctx):
     f = ctx.anchor(RP + "compute_last_random_value")
     if f:
         v = FnView.get(P, f)
-        oks = [v.cx.operand(rv["ops"][0]) for (b, k, rv) in ret_writes(f) if k == "ok"]
+        oks = ok_values(f, v)
         good = False
         if len(oks) == 1 and oks[0][0] == "mut":
             base, ops = oks[0][1], oks[0][2]
@@ -92,17 +92,17 @@ def run(ctx):
                     fld(arg(2), "identifier")(t[1][2][2])
                 lhs = lambda t: is_call(t, name="mul") and ((zeta(t[2][0]) and mentions(t[2][1], fld(arg(2), "signing_share")))
                                                             or (zeta(t[2][1]) and mentions(t[2][0], fld(arg(2), "signing_share"))))
-                summ = lambda t: t[0] == "phi" and any(is_call(x, name="zero") for x in t[2]) and \
-                    any(is_call(x, name="add") and mentions(x, next_item(arg(3))) for x in t[2])
+                summ = lambda t: sum_over(P, f, v, t, arg(3))
                 good = (key[0] == "some" and is_call(key[1], name="last") and key[1][2][0] == ("arg", 1)
                         and is_call(val, name="sub") and lhs(val[2][0]) and summ(val[2][1]))
         ctx.check(good, "AGREE", f.key, "last==zeta*share-sum(random)",
                   "the helper's outgoing values must be the drawn values for the first |H|-1 helpers and zeta_i*s_i minus "
                   "their sum for the last helper, zeta_i = Lagrange(helpers, at repaired identifier, own identifier)",
                   f.loc)
-        reductions(ctx, f.key, adaptors={"zip": 1}, min_loops=1)
+        reductions(ctx, f.key, adaptors={"zip": 1}, min_loops=0)
         # closure maps each random value unchanged into a Delta
-        for s in subterms(oks[0]) if oks else []:
+        zipped = [s for s in subterms(oks[0]) if is_call(s, name="zip")] if oks else []
+        for s in subterms(zipped[0][2][1]) if zipped else []:
             if s[0] == "closure":
                 cf = P.fns.get(s[1])
                 ct = unwrap_newtypes(TermCx(P, cf).local(0)) if cf else None
@@ -110,23 +110,21 @@ def run(ctx):
                           "each non-last delta must be exactly the drawn value", f.loc)
     f = ctx.anchor(RP + "repair_share_part2")
     if f:
-        lr = reductions(ctx, f.key, adaptors={}, min_loops=1)
+        reductions(ctx, f.key, adaptors={}, min_loops=0)
         v = FnView.get(P, f)
         rt = unwrap_newtypes(v.cx.local(0))
-        ctx.check(rt[0] == "phi" and any(is_call(x, name="add") and mentions(x, next_item(arg(1))) for x in rt[2])
-                  and lr and lr[0]["iter_term"] == ("iter", ("arg", 1)), "RED", f.key, "sigma==sum(all deltas)",
+        ctx.check(sum_over(P, f, v, rt, arg(1)), "RED", f.key, "sigma==sum(all deltas)",
                   "repair_share_part2 must add up every delta it is given", f.loc)
     f = ctx.anchor(RP + "repair_share_part3")
     if f:
-        lr = reductions(ctx, f.key, adaptors={}, min_loops=1)
+        reductions(ctx, f.key, adaptors={}, min_loops=0)
         v = FnView.get(P, f)
-        oks = [v.cx.operand(rv["ops"][0]) for (b, k, rv) in ret_writes(f) if k == "ok"]
+        oks = ok_values(f, v)
         if len(oks) == 1:
             kp = oks[0]
             key_package_consistent(ctx, f, kp)
             S = unwrap_newtypes(get_field(kp, "signing_share"))
-            ctx.check(S[0] == "phi" and any(is_call(x, name="add") and mentions(x, next_item(arg(1))) for x in S[2])
-                      and lr and lr[0]["iter_term"] == ("iter", ("arg", 1)), "RED", f.key, "share==sum(all sigmas)",
+            ctx.check(sum_over(P, f, v, S, arg(1)), "RED", f.key, "share==sum(all sigmas)",
                       "the repaired share must be the sum of every sigma", f.loc)
             ctx.check(get_field(kp, "identifier") == ("arg", 2) and fld(arg(3), "verifying_key")(get_field(kp, "verifying_key"))
                       and some(fld(arg(3), "min_signers"))(get_field(kp, "min_signers")), "COPY", f.key,
